@@ -843,6 +843,11 @@ CHECKS['C03']['note'] = CHECKS['C03']['note'] + (
     ' A harness-defined non-alias-safe leaf (`accum`: writes out before it has read x) and 90 wrapper x leaf strata (15 wrapper '
     'variants incl. cached temporaries x 6 leaves incl. Laplacian, PartialDerivative, Rosenbrock gradient) are part of every run.')
 
+CHECKS['C15']['note'] = CHECKS['C15']['note'] + (
+    ' Complex data: node values / affine exactness hold bitwise on dyadic grids and within ~1 ulp on decimal grids (NumPy complex '
+    'division). The pinned bodies of _find_indices / _NearestInterpolator._evaluate are compared after sound normalisations and, '
+    'failing that, probed behaviourally on an exactly representable grid against the model (evidence: extraction_source).')
+
 NOT_YET = {}
 
 
